@@ -53,6 +53,8 @@ def build_kernel(spec, d, batch=()):
         return K.PiecewisePolynomialKernel(q=spec.get("q", 2), **common)
     if k == "sm":
         return K.SpectralMixtureKernel(num_mixtures=spec.get("mixtures", 2), **{**common, "ard_num_dims": dd})
+    if k == "rff":
+        return K.RFFKernel(num_samples=spec.get("samples", 6), num_dims=dd, batch_shape=bs)
     if k == "rbfgrad":
         return K.RBFKernelGrad(**common)
     if k == "m52grad":
